@@ -92,7 +92,9 @@ def functions_encoded(prog, kinds):
             names |= {n for n in prog.fns if 'src/v1/model.rs' in n and (n.endswith('::protocol') or n.endswith('::addresses_str') or n.endswith('::fmt'))}
             k = 'str'
         names.add(v1sum.entry_name(prog, k))
-    names |= {n for n in prog.fns if n.startswith('v1::parse_header') or n.startswith('v1::parse_addresses')}
+    if not kinds:
+        return []
+    names |= {n for n in prog.fns if n.startswith('v1::parse_header') or n.startswith('v1::parse_line') or n.startswith('v1::is_final') or n.startswith('v1::parse_addresses')}
     names |= {n for n in prog.fns if 'src/lib.rs:25' in n or 'src/lib.rs:34' in n or 'src/lib.rs:50' in n or n == 'PartialResult::is_complete'}
     return sorted(names)
 
@@ -1211,7 +1213,7 @@ def c06_glue(prog, lmax):
 
     ex = v1sum.new_exec(prog, [ctx], 8)
     ex.suffix = ''
-    ex.hooks = [stub]
+    ex.hooks = [stub] + list(ex.hooks)
 
     def run(e):
         e.calls = []
